@@ -149,7 +149,7 @@ let ghost fin_b = final_name;
         },
         "anchors": [
             {"after": "let mut final_name = target.clone();", "proof": "let ghost tgt0 = *target; let ghost mut steps: nat = 0;"},
-            {"after": "seen.insert(target.clone());", "proof": """proof {
+            {"after_re": r"seen\.insert\(\w+\.clone\(\)\);", "proof": """proof {
     assert(cname_map@.values().contains(*target)) by { assert(cname_map@.contains_key(fin_b) && cname_map@[fin_b] == *target); }
     steps = steps + 1;
     let s_new = seen@;
